@@ -89,7 +89,8 @@ impl<'a> G<'a> {
         let n = 1 + self.u.below(3);
         for i in 0..n {
             if i > 0 { self.p(" "); }
-            match self.u.below(6) {
+            match self.u.below(8) {
+                6 | 7 => { self.d_inc(); self.user_call(0); self.depth -= 1; if !self.out.ends_with(')') { self.p(" w"); } }
                 0 | 1 => { let s = self.pick(IDENTS); self.p(s); }
                 2 => self.number(),
                 3 => { self.mvar(true); }
